@@ -41,6 +41,18 @@ class Color(enum.Enum):
   BLUE = 'b'
 
 
+class Level(enum.IntEnum):
+  HIGH = 3
+
+
+class StrMode(str, enum.Enum):
+  FAST = 'fast'
+
+
+class Celsius(float):
+  """a user subclass of a primitive"""
+
+
 class T0(fdl.Tag):
   """t0"""
 
@@ -100,12 +112,12 @@ def _leaves():
           b'', b'\xff', b'\\u0041', b'\\U00000041x', b'\\', b'\\u00', True, False, None, Ellipsis, Color.RED, int, fam.g0,
           slice(1, None, 2), frozenset({1}), (1, (2,)), fdl.NO_VALUE, fam.NT(1, 2), MY_CONSTANT, range(3),
           bytearray(b'ab'), 10**400, 'x' * 70, -2**63, Color.BLUE,
-          [], {}, set(), (), collections.defaultdict(list)]
+          [], {}, set(), (), collections.defaultdict(list), Level.HIGH, StrMode.FAST, Celsius(1.5)]
 
 
 NLEAF = len(_leaves())
 CK = ['direct', 'list', 'tuple', 'dict value', 'dict key', 'set element', 'namedtuple', 'defaultdict', 'dict-based object',
-      'frozenset element', 'nested list in dict in tuple']
+      'frozenset element', 'nested list in dict in tuple', 'one list twice inside a dict-based object']
 
 
 def _place(ck, v):
@@ -129,6 +141,9 @@ def _place(ck, v):
     return DictObj(v, [v])
   if ck == 9:
     return frozenset([v, 7])
+  if ck == 11:
+    shared = [v]
+    return DictObj(shared, {'again': shared})       # the only references to `shared` sit below the dict-based object
   return ({'d': [[v], 3]},)
 
 
@@ -172,7 +187,7 @@ def c09_text(li: int, ck: int, kind: int, share: bool, tagged: bool) -> bool:
   """
   dump_json raises, or the text is valid JSON from which load_json rebuilds a canonically equal value (types, leaves,
   callables, tags, sharing, unset stays unset) without invoking anything, and a second dump gives the same document.
-  require: 0 <= li < 51 and 0 <= ck <= 10 and 0 <= kind <= 4
+  require: 0 <= li < 54 and 0 <= ck <= 11 and 0 <= kind <= 4
   """
   import crosshair
   li, ck, kind = crosshair.realize(li), crosshair.realize(ck), crosshair.realize(kind)
@@ -276,6 +291,13 @@ class RecPolicy(ser.PyrefPolicy):
     return ans
 
 
+class EmptyAllowList(RecPolicy):
+  """The same policy, but the object is falsy (think of an allow-list policy that holds no entries)."""
+
+  def __len__(self):
+    return 0
+
+
 class AllowAll(ser.PyrefPolicy):
   def allows_import(self, module, symbol):
     return True
@@ -296,11 +318,12 @@ def _pyrefs(doc, out):
   return out
 
 
-def c09_policy(which: int, target: int, ri: int, rv: int, warm: bool) -> bool:
+def c09_policy(which: int, target: int, ri: int, rv: int, warm: bool, falsy: bool) -> bool:
   """
   A well-formed document with pyref number `which` rewritten to TARGETS[target] (target 8: unchanged), loaded under a
   policy that refuses its ri-th allows_import question and its rv-th allows_value question (-1: never).  `warm`: the
-  same document was loaded before under an allow-everything policy (no approval may carry over).
+  same document was loaded before under an allow-everything policy (no approval may carry over).  `falsy`: the policy
+  object's truth value is False (it is still the supplied policy).
   require: 0 <= which <= 7 and 0 <= target <= 8 and -1 <= ri <= 8 and -1 <= rv <= 8
   """
   import crosshair
@@ -325,7 +348,7 @@ def c09_policy(which: int, target: int, ri: int, rv: int, warm: bool) -> bool:
   ser.importlib = _ImportlibProxy(real)
   del EVENTS[:]
   sigs.reset_log()
-  policy = RecPolicy(ri, rv)
+  policy = (EmptyAllowList if falsy else RecPolicy)(ri, rv)
   outcome, result = 'returned', None
   try:
     result = ser.Deserialization(doc, policy).result
@@ -451,21 +474,24 @@ def obligations(tier, seed):
   if names and 'raw_unicode_escape' in names:
     rue_codec.install_into_crosshair()
   tcubes = [Cube(f'l{li}_k{kind}', [], dict(li=li, kind=kind), est=44) for li in range(NLEAF) for kind in range(5)
-            if tier != 'quick' or (li + kind) % 3 == 0 or li in (22, 23, 24, 25, 26, 46, 47, 48, 49, 50)]
+            if tier != 'quick' or (li + kind) % 3 == 0 or li in (22, 23, 24, 25, 26, 46, 47, 48, 49, 50, 51, 52, 53)]
   scubes = [Cube(f's{s}_{int(sh)}', [], dict(shape=s, share=sh), est=30) for s in range(4) for sh in (False, True)]
-  pcubes = [Cube(f'w{w}_t{t}', [], dict(which=w, target=t), est=200) for w in range(8) for t in range(9)
-            if tier != 'quick' or (w + t) % 3 == 0]
+  pcubes = [Cube(f'w{w}_t{t}', [], dict(which=w, target=t, falsy=bool((w + t) % 2) if tier == 'quick' else None), est=200)
+            for w in range(8) for t in range(9) if tier != 'quick' or (w + t) % 3 == 0]
+  for c in pcubes:
+    if c.fix.get('falsy') is None:
+      del c.fix['falsy']
   t = 300 if tier == 'quick' else 900
   obs = [
       Obligation('c09_text', c09_text, tcubes, timeout=t, path_timeout=60, enumerated=True,
                  smoke=dict(li=2, ck=3, kind=0, share=True, tagged=True),
-                 extra_smokes=[dict(li=li, ck=li % 11, kind=li % 5, share=bool(li % 2), tagged=bool(li % 3)) for li in range(NLEAF)]),
+                 extra_smokes=[dict(li=li, ck=li % 12, kind=li % 5, share=bool(li % 2), tagged=bool(li % 3)) for li in range(NLEAF)]),
       Obligation('c09_sym', c09_sym, scubes, timeout=t, path_timeout=60,
                  smoke=dict(shape=0, share=True, tagged=True, i=5, s='ab', b=True),
                  extra_smokes=[dict(shape=s, share=False, tagged=False, i=-3, s='', b=False) for s in range(4)]),
       Obligation('c09_policy', c09_policy, pcubes, timeout=t, path_timeout=60,
-                 smoke=dict(which=0, target=8, ri=-1, rv=-1, warm=False),
-                 extra_smokes=[dict(which=w, target=w, ri=w - 1, rv=(2 * w) % 9 - 1, warm=bool(w % 2)) for w in range(8)]),
+                 smoke=dict(which=0, target=8, ri=-1, rv=-1, warm=False, falsy=False),
+                 extra_smokes=[dict(which=w, target=w, ri=w - 1, rv=(2 * w) % 9 - 1, warm=bool(w % 2), falsy=bool(w % 3 == 0)) for w in range(8)]),
       Obligation('c09_default_policy', c09_default_policy, [Cube(f't{k}', [], dict(target=k)) for k in range(8)],
                  timeout=60, enumerated=True, smoke=dict(target=2)),
       Obligation('c09_bytes_e2e', c09_bytes_e2e, [Cube(f'l{k}', [], dict(li=k)) for k in range(8)], timeout=60,
